@@ -658,7 +658,7 @@ Proof.
 Qed.
 
 Ltac isolve := let z := fresh "z" in let Hz := fresh "Hz" in
-  intros z Hz; simpl; repeat (rewrite in_app_iff); simpl; tauto.
+  intros z Hz; simpl in Hz; simpl; repeat (rewrite in_app_iff in Hz); repeat (rewrite in_app_iff); simpl in Hz; simpl; tauto.
 Ltac sub_ IH := eapply def_spec_incl; [apply IH | isolve | isolve].
 Ltac nodef := intros; discriminate.
 
@@ -969,7 +969,7 @@ Proof.
     apply node_spec_app; [nsub Hs | nsub Ht'].
 Qed.
 
-Lemma nodes_decl e d : typed_decl d = true -> node_spec (nodes_decl d) (r_decl e d).
+Lemma nodes_decl_ok e d : typed_decl d = true -> node_spec (nodes_decl d) (r_decl e d).
 Proof.
   destruct nodes_syntax as [_ [Hxs [_ Hss]]].
   intros Ht. destruct d as [nm ppos pn | names typ vals | names vals | n under | fp n params ptyp results rtyp bp body];
@@ -999,7 +999,7 @@ Proof.
   { induction l as [|d l IH]; intros Hl; [apply node_spec_nil|].
     cbn [flat_map]. apply node_spec_app.
     - assert (Hd : In d p) by (apply Hl; simpl; auto).
-      eapply node_spec_incl; [apply nodes_decl; apply Ht; exact Hd|].
+      eapply node_spec_incl; [apply nodes_decl_ok; apply Ht; exact Hd|].
       intros z Hz. right. apply in_flat_map. exists d. auto.
     - apply IH. intros z Hz. apply Hl. simpl. auto. }
   apply G. apply incl_refl.
